@@ -5,5 +5,6 @@ Require ExtrOcamlBasic.
 From Coq Require Import NArith.
 From Pika Require Import Model.Affinity.
 Extraction Language OCaml.
-Extraction "m.ml" startup set_process_mask default_threads default_cores owners decode total_pus exposed
+Extraction "m.ml" startup startup_os set_process_mask process_mask_bits mask_bits default_threads default_cores owners
+  decode total_pus exposed
   N.of_nat. (* N.of_nat only so that the shared conversion prelude (conv.ml.in) finds the types n/positive *)
